@@ -413,6 +413,74 @@ class Lane:
             if os.path.exists(path + suffix):
                 os.remove(path + suffix)
 
+    def lane_f_after_failed_encoding(self, n):
+        """values that can be built but not encoded (an unsigned input, 256 bytes of reward data, an out-of-range port, a
+        negative amount, a list with an unencodable element half-way): the encoding attempt fails -- and the NEXT encoding
+        or id request of a perfectly good object must be unaffected by it"""
+        import hashlib
+        import skepticoin.datatypes as dt
+        import skepticoin.signing as sg
+        import skepticoin.networking.messages as ms
+        rng, g = self.rng, self.g
+
+        def sha256d(b):
+            return hashlib.sha256(hashlib.sha256(b).digest()).digest()
+        gb = dt.Block.deserialize(env.genesis_bytes())
+        ghdr = gb.header.serialize()
+        for k in range(n):
+            good_tx = g.transaction(rng)
+            good_bytes = bridge.real_to_rtx(good_tx).enc()
+            bad_makers = [
+                lambda: dt.Transaction([dt.Input(dt.OutputReference(objgen.rb(rng, 32), 1), None)], [dt.Output(5, g.public_key(rng))]),
+                lambda: dt.Transaction([dt.Input(dt.OutputReference(b"\x00" * 32, 0), sg.CoinbaseData.__new__(sg.CoinbaseData))], []),
+                lambda: dt.Transaction([dt.Input(dt.OutputReference(objgen.rb(rng, 32), 0), g.signature(rng))],
+                                       [dt.Output(7, g.public_key(rng)), dt.Output(-1, g.public_key(rng))]),
+                lambda: dt.Transaction([dt.Input(dt.OutputReference(objgen.rb(rng, 32), 0), g.signature(rng))],
+                                       [dt.Output(7, g.public_key(rng)), dt.Output(1 << 64, g.public_key(rng))]),
+                lambda: ms.PeersMessage([ms.Peer(1, g.ip(rng), 2412), ms.Peer(1, g.ip(rng), 70000)]),
+                lambda: ms.GetBlocksMessage([objgen.h32(rng), None]),
+            ]
+            maker = bad_makers[k % len(bad_makers)]
+            failed = False
+            try:
+                bad = maker()
+                if hasattr(bad, "inputs") and bad.inputs and isinstance(getattr(bad.inputs[0], "signature", None), sg.CoinbaseData):
+                    bad.inputs[0].signature.height = 5
+                    bad.inputs[0].signature.signature = b"x" * 256
+                bad.serialize()
+            except Exception:
+                failed = True
+            if not failed:
+                self.c["F_unencodable_value_was_encoded"] = self.c.get("F_unencodable_value_was_encoded", 0) + 1
+                continue
+            self.c["F_failed_encodings"] = self.c.get("F_failed_encodings", 0) + 1
+            w = {"lane": "F-after-failed-encoding", "bytes": good_bytes.hex(), "failed_value": k % len(bad_makers)}
+            which = k % 3
+            if which == 0:
+                got = gb.header.serialize()
+                if got != ghdr:
+                    self.v("encoding-depends-on-an-earlier-failed-encoding", "the genesis header encodes to %d bytes (expected %d) "
+                           "right after another value failed to encode" % (len(got), len(ghdr)), w)
+            elif which == 1:
+                fresh = dt.Transaction(list(good_tx.inputs), list(good_tx.outputs))
+                if fresh.hash() != sha256d(good_bytes):
+                    self.v("id-is-not-hash-of-canonical-encoding:Transaction-after-failed-encoding", "a transaction built in memory "
+                           "right after another value failed to encode gets an id that is not the double SHA-256 of its encoding", w)
+            else:
+                m = ms.GetDataMessage(ms.DATA_BLOCK, objgen.h32(rng))
+                enc = m.serialize()
+                try:
+                    same = ms.Message.deserialize(enc).serialize() == enc
+                except Exception:
+                    same = False
+                if not same or len(enc) != 2 + 1 + 2 + 32:
+                    self.v("encoding-depends-on-an-earlier-failed-encoding", "a GetData message encodes to %d bytes right after "
+                           "another value failed to encode" % len(enc), w)
+            # and the following request is clean in any case
+            if gb.header.serialize() != ghdr:
+                self.v("encoding-depends-on-an-earlier-failed-encoding", "the genesis header still encodes differently one request "
+                       "later", w)
+
     def lane_d_derived(self, n):
         """objects DERIVED by the repository's own functions from objects that came from bytes (signing a decoded unsigned
         transaction, signing a decoded signed one again, the to-be-signed form of a decoded transaction)"""
@@ -590,6 +658,7 @@ def run_shard(spec):
     lane.lane_c_faulty_store(6 if quick else 80)
     lane.lane_long_lists(2 if quick else 40)
     lane.lane_d_derived(25 if quick else 400)
+    lane.lane_f_after_failed_encoding(60 if quick else 1200)
     lane.lane_e_workload(2 if quick else 40)
     return lane.result()
 
@@ -610,6 +679,7 @@ def finalize(m, tier):
                    ("ids checked", c.get("C_ids_checked", 0), 5000),
                    ("ids from store", c.get("C_ids_from_store", 0), 100), ("failed flushes", c.get("C_failed_flushes", 0), 40),
                    ("ids after a failed flush", c.get("C_ids_after_failed_flush", 0), 200), ("ids of derived objects", c.get("D_ids_checked", 0), 1000),
+                   ("encodings right after a failed encoding", c.get("F_failed_encodings", 0), 500),
                    ("id requests observed along node-like workloads", c.get("E_id_requests_observed", 0), 5000),
                    ("id_invariant_evaluations", c.get("id_invariant_evaluations", 0), 5000), ("long_lists", c.get("long_lists", 0), 20),
                    ("count-altered strings", c.get("B_by_mutation", {}).get("count-altered", 0), 60)],
